@@ -51,7 +51,8 @@ NearCreds(pairs) ==
 
 SpellKinds == {"nopad", "noncanon", "lower", "upper", "twospace"}
 OtherKinds == {"nospace", "tab", "bearer", "digest", "schemeonly", "missing", "badchar", "trailing", "lead", "midpad",
-               "nonutf8_last", "nonutf8_trunc", "nonutf8_mid", "nonutf8_repl", "rawff"}
+               "nonutf8_last", "nonutf8_trunc", "nonutf8_mid", "nonutf8_repl", "rawff",
+               "twice"}       \* the right Authorization line sent twice: the field value is `Basic X, Basic X`, not the base64 of any pair
 BasicHeaders(pairs) ==
   LET n == Len(pairs) IN
        {[kind |-> "basic", cred |-> c] : c \in NearCreds(pairs)}
